@@ -48,9 +48,10 @@ man = {
          'kind_free_text': 'CrossHair 0.0.110 symbolic execution of the unmodified pamqp functions (imported '
                            'through symrt/loader.py from the current source) with z3 5.1 and the modelling '
                            'layer symrt/; counterexamples replayed by engine/replayer.py on the real code'},
-        {'name': 'ksmt', 'path': 'engine/ksmt.py', 'serves_properties': ['C13', 'C14', 'C15', 'C17'],
+        {'name': 'ksmt', 'path': 'engine/ksmt.py', 'serves_properties': ['C08', 'C13', 'C14', 'C15', 'C17'],
          'kind_free_text': 'SMT-LIB2 queries generated from the AST / introspection of the current source '
-                           '(validators K1, catalogue and reply codes K2, timestamp lemma K3) discharged by '
+                           '(validators K1, catalogue and reply codes K2, timestamp lemma K3, ambiguity of regular-expression '
+                           'loops applied by the decoders K4) discharged by '
                            'z3 (5.1; 4.8.12 and cvc5 as cross-check in the thorough tier)'},
     ],
     'checks': checks,
